@@ -55,7 +55,7 @@ def owns_heap(prog, ty, depth=0, seen=None):
     return False
 
 
-def size_arg_ok(an, body, e):
+def size_arg_ok(an, body, e, depth=0):
     """Size expression built from constants and len() of existing data through -, /, min, saturating ops, casts."""
     e = peel(e, widen=True)
     k = e[0]
@@ -63,6 +63,17 @@ def size_arg_ok(an, body, e):
         return True, "constant %s" % e[1]
     if const_eval(e) is not None:
         return True, "constant"
+    if k == "call" and e[2] is not None and e[2].local and e[2].kind == "Item" and depth < 3 and getattr(an, "prog", None) is not None:
+        # a private size helper (`fn encoded_len(&self) -> usize`): every value it can return is a constant or the
+        # length of existing data
+        hb = an.prog.bodies.get(e[2].path)
+        if hb is not None and re.match(r"^(usize|u\d+)$", hb.local_ty(0)) and not hb.sccs():
+            r = peel(an.local(hb, 0), widen=True)
+            ms = r[1] if r[0] == "phi" else [r]
+            rs = [size_arg_ok(an, hb, m, depth + 1) for m in ms]
+            if all(x[0] for x in rs):
+                return True, "size helper %s returns constants / lengths of existing data" % e[2].path.rsplit("::", 1)[1]
+            return False, "size helper %s: %s" % (e[2].path.rsplit("::", 1)[1], [x[1] for x in rs if not x[0]][:1])
     if k == "call" and e[2] is not None:
         if e[2].is_(*LEN):
             return True, "len() of existing data"
